@@ -111,8 +111,17 @@ def run_impl(d, record=True):
     rec = Rec(sf, hide=d.get("hide", ()))
     y = np.asarray(d["y"], dtype=float)
     cols = d["cols"]
+    names = None                       # the names the rows of the result must carry, in this order
     if d.get("two_d", len(cols) != 1):
-        zp = np.column_stack([np.asarray(c, dtype=float) for c in cols])
+        if d.get("names"):
+            import polars as pl
+            zp = pl.DataFrame({nm: [float(v) for v in c] for nm, c in zip(d["names"], cols)})
+            names = list(d["names"])
+        else:
+            zp = np.column_stack([np.asarray(c, dtype=float) for c in cols])
+            names = [str(i) for i in range(len(cols))]
+        if len(cols) <= 1:
+            names = None               # the `model` column is dropped for a single forecast
     else:
         zp = np.asarray(cols[0], dtype=float)
     w = None if d["w"] is None else np.asarray(d["w"], dtype=float)
@@ -124,6 +133,7 @@ def run_impl(d, record=True):
     try:
         df = decompose(y, zp, w, scoring_function=rec, **kw)
         rows = [[float(r[k]) for k in ("miscalibration", "discrimination", "uncertainty", "score")] for r in df.to_dicts()]
+        labels = [str(v) for v in df["model"].to_list()] if "model" in df.columns else None
         if all(math.isfinite(v) for r in rows for v in r):
             obs = ("rows", rows)
         else:
@@ -136,7 +146,14 @@ def run_impl(d, record=True):
         obs = ("UnboundLocalError", str(e)[:80])
     except Exception as e:  # noqa: BLE001
         obs = ("Other", type(e).__name__ + ": " + str(e)[:80])
-    out = dict(obs=obs, marg=None, recals=[], table=None, nf=False)
+    out = dict(obs=obs, marg=None, recals=[], table=None, nf=False, names=names, labels=None, by_name=None)
+    if obs[0] in ("rows", "nonfinite"):
+        out["labels"] = labels
+        if names is None:
+            out["by_name"] = obs[1] if labels is None else None
+        elif labels is not None and sorted(labels) == sorted(names) and len(set(labels)) == len(labels):
+            # the row that CLAIMS to describe column j, for every column j in input order
+            out["by_name"] = [obs[1][labels.index(nm)] for nm in names]
     if not record:
         return out
     # parse the call sequence: [constant check (0-d)] ymin marginal (score recal)*
@@ -228,6 +245,7 @@ def gen_z(rng, n, dom, y, style):
     raise ValueError(style)
 
 
+NAME_POOL = ["zeta", "alpha", "mu", "beta", "omega", "Model_B", "model_a", "10", "2", "x1"]
 ZSTYLES = ["random", "random", "ties", "ties", "constant", "sorted", "noisy", "noisy", "recal"]
 
 
@@ -246,8 +264,14 @@ def gen_case(rng, nmax, config=None):
             n = rng.randrange(2, nmax + 1)
         if not quant or iso.quantile_float_safe(sf.level, n):
             break
+    ncol = rng.choice([1, 1, 3, 3, 2, 4])
+    wide = rng.random() < 0.04         # an ndarray with >= 11 columns: "10" sorts before "2"
+    if wide:
+        ncol = rng.choice([11, 12])
+        n = rng.randrange(2, 6)
+        if quant and not iso.quantile_float_safe(sf.level, n):
+            n = 2
     y = gen_y(rng, n, dom)
-    ncol = rng.choice([1, 1, 3])
     if quant:
         w = None
     else:
@@ -269,7 +293,14 @@ def gen_case(rng, nmax, config=None):
         else:
             cols.append(gen_z(rng, n, dom, y, st))
         styles.append(st)
-    return dict(config=name, y=y, cols=cols, w=w, styles=styles, two_d=(ncol != 1) or rng.random() < 0.1)
+    d = dict(config=name, y=y, cols=cols, w=w, styles=styles, two_d=(ncol != 1) or rng.random() < 0.1)
+    if 2 <= ncol <= 4 and rng.random() < 0.5:
+        # a polars DataFrame of forecasts whose column names are NOT in ascending order
+        nm = rng.sample(NAME_POOL, ncol)
+        if nm == sorted(nm):
+            nm = nm[::-1]
+        d["names"] = nm
+    return d
 
 
 MALFORMED = ["median", "median_w", "wquantile", "ylen", "wlen", "badlevel", "badfun", "zdomain", "ydomain", "n1",
@@ -420,8 +451,11 @@ def coq_case(d, r):
     marg = None if r["marg"] is None or not math.isfinite(r["marg"]) else qlit(r["marg"])
     recs = "[" + "; ".join(qlist(x) for x in r["recals"]) + "]"
     o = r["obs"]
-    if o[0] == "rows":
-        ot = "(ORows [" + "; ".join("(" + ", ".join(qlit(v) for v in row) + ")" for row in o[1]) + "])"
+    if o[0] == "rows" and r["by_name"] is None:
+        ot = "OOther"                  # the `model` labels are not the column names: never agrees
+    elif o[0] == "rows":
+        # position j = the row LABELLED with the name of column j (label -> row, not position)
+        ot = "(ORows [" + "; ".join("(" + ", ".join(qlit(v) for v in row) + ")" for row in r["by_name"]) + "])"
     elif o[0] == "nonfinite":
         ot = "ONonFinite"
     else:
@@ -543,6 +577,8 @@ def judge_case(d, seed=0):
     const_bad = len(set(y)) == 1 and not admissible(sf, y[0], y[0])
     if o[0] != "rows":
         if o[0] == "nonfinite":
+            if CONFIGS[d["config"]][2] != "unit":     # LogLoss is inf at predictions 0 / 1 (excluded by C04)
+                bad.append(f"C06 identity: non-finite components {o[1]} on a well-formed data set (n={n})")
             return bad, o
         if const_bad and o[0] == "ValueError":
             return bad, o
@@ -582,7 +618,7 @@ def judge_case(d, seed=0):
     rng = random.Random(seed * 7919 + n)
     dom = CONFIGS[d["config"]][2]
     other = [gen_z(rng, n, dom, y, "random")]
-    o2 = call(d, cols=other, two_d=False)
+    o2 = call(d, cols=other, two_d=False, names=None)
     if o2[0] == "rows" and o2[1][0][2] != u0:
         bad.append(f"C06 uncertainty depends on the forecasts: {u0} vs {o2[1][0][2]}")
     if consistent and not const_bad:
@@ -608,7 +644,7 @@ def judge_case(d, seed=0):
     # --- miscalibration 0 for already recalibrated forecasts
     if ymin_ok and consistent and base["recals"] and len(base["recals"][0]) == n:
         rc = [float(v) for v in base["recals"][0]]
-        o4 = call(d, cols=[rc], two_d=False)
+        o4 = call(d, cols=[rc], two_d=False, names=None)
         if o4[0] == "rows":
             m4, s4 = o4[1][0][0], o4[1][0][3]
             if abs(m4) > 1e-12 * (1 + abs(s4) + abs(u0)):
@@ -658,12 +694,20 @@ def judge_case(d, seed=0):
             continue                      # relabelled forecast left the domain of the score
         else:
             bad.append(f"C07 relabel {nm}: decompose raised {o7[0]} ({o7[1]})")
-    # --- C07 column independence
+    # --- C07 column independence, BY NAME: the row labelled `name` in the `model` column must be the
+    #     decomposition of that column alone; rows in the order of the columns, labelled with their names
     if len(cols) > 1:
+        names, labels = base["names"], base["labels"]
+        if labels != names:
+            bad.append(f"C07 column labels: `model` column is {labels}, the forecast columns are {names}")
         for j, c in enumerate(cols):
-            o8 = call(d, cols=[c], two_d=False)
-            if o8[0] != "rows" or o8[1][0] != rows[j]:
-                bad.append(f"C07 column {j}: alone {o8[1] if o8[0] == 'rows' else o8}, in the matrix {rows[j]}")
+            o8 = call(d, cols=[c], two_d=False, names=None)
+            mine = [r for lab, r in zip(labels or [], rows) if lab == names[j]]
+            if o8[0] != "rows" or len(mine) != 1 or o8[1][0] != mine[0]:
+                bad.append(f"C07 column '{names[j]}' (index {j}): alone {o8[1] if o8[0] == 'rows' else o8}, "
+                           f"row(s) labelled '{names[j]}' in the matrix result: {mine}")
+    elif base["labels"] is not None:
+        bad.append(f"C07 column labels: single forecast but a `model` column {base['labels']}")
     # --- C07 aliases
     if d.get("functional") is None and d.get("level") is None:
         o9 = call(d, functional=sf.functional, level=getattr(sf, "level", None))
@@ -688,12 +732,21 @@ def minimise(d, fails):
         n = len(cur["y"])
         if len(cur["cols"]) > 1:
             for j in range(len(cur["cols"])):
-                c = dict(cur, cols=[cur["cols"][j]], two_d=False)
+                c = dict(cur, cols=[cur["cols"][j]], two_d=False, names=None)
                 if fails(c):
                     cur, changed = c, True
                     break
             if changed:
                 continue
+            if len(cur["cols"]) > 2:
+                for j in range(len(cur["cols"])):
+                    c = dict(cur, cols=cur["cols"][:j] + cur["cols"][j + 1:],
+                             names=None if not cur.get("names") else cur["names"][:j] + cur["names"][j + 1:])
+                    if fails(c):
+                        cur, changed = c, True
+                        break
+                if changed:
+                    continue
         for i in range(n):
             if n <= 2:
                 break
@@ -740,8 +793,12 @@ def main():
                 stats["malformed"][key] = stats["malformed"].get(key, 0) + 1
             if d["w"] is not None:
                 stats["weighted"] += 1
-            if len(d["cols"]) == 3:
+            if len(d["cols"]) >= 2:
                 stats["cols3"] += 1
+            if d.get("names"):
+                stats["polars_named"] = stats.get("polars_named", 0) + 1
+            if len(d["cols"]) >= 11:
+                stats["wide_ndarray"] = stats.get("wide_ndarray", 0) + 1
             for c, st in zip(d["cols"], d.get("styles", [])):
                 if st == "recal":
                     stats["recal"] += 1
@@ -804,6 +861,23 @@ def main():
         for name in ("PinballLoss(0.5)",):
             d = dict(config=name, y=[0.0, 1.0, 2.0, 1.0], cols=[[0.5, 1.0, 2.5, 1.5]], w=None, two_d=False,
                      functional="median", kind="median")
+            tried += 1
+            bad, obs = judge_case(d, seed)
+            if bad:
+                note(d, bad, obs)
+        # 2b. column labels: names not in ascending order (polars frame; ndarray with 11 columns)
+        yy = [0.0, 1.0, 2.0, 1.0]
+        for d in (dict(config="SquaredError", y=yy, cols=[[0.5, 1.0, 2.5, 1.5], [1.0, 1.0, 1.0, 1.0], [3.0, 2.0, 1.0, 0.0]],
+                       w=None, two_d=True, names=["zeta", "alpha", "mu"]),
+                  dict(config="PinballLoss(0.25)", y=yy, cols=[[0.5 + 0.25 * k * i for i in range(4)] for k in range(11)],
+                       w=None, two_d=True)):
+            tried += 1
+            bad, obs = judge_case(d, seed)
+            if bad:
+                note(d, bad, obs)
+        # 2c. forecasts one ulp apart (scikit-learn pools X values closer than 1e-15)
+        for name in ("SquaredError", "GammaDeviance", "PinballLoss(0.5)"):
+            d = dict(config=name, y=[1.0, 2.0, 3.0], cols=[[1.0, 5.0, 5.000000000000001]], w=None, two_d=False)
             tried += 1
             bad, obs = judge_case(d, seed)
             if bad:
